@@ -1,13 +1,17 @@
 CHECK = {
     "level": "model_checking",
-    "technique": "stateless bounded-exhaustive enumeration of closed executions of every flenp_* entry point on the real code "
+    "technique": "stateless bounded-exhaustive enumeration of closed executions of every flenp_* entry point and of every lenp_* compatibility entry point "
+                 "of include/ufw/length-prefix.h on the real code "
                  "(inputs x buffer states x chunk lists x destination capacities x source fragmentation scripts x sink answer scripts x "
-                 "request histories of two _n slices off one buffer) against an independently written prefix codec; counts beyond 2^31 are "
+                 "request histories of _n slices off one buffer x argument aliasing x drivers that call the library themselves on lower endpoints) "
+                 "against an independently written prefix codec; counts beyond 2^31 are "
                  "covered by structured boundary families through buffers/destinations that are never touched (fake extents over 16 real "
                  "octets, an untouched 8 GiB anonymous mapping) and drivers that identify octets by address (a decoder that asks its source to "
                  "fill memory outside that mapping -- a bounce buffer -- cannot be followed this way: such cases are ended as not judged, "
                  "a cap, never a violation)",
-    "rule": "odometer, simplest first: encoders over every buffer state (offset<=used<=size<=S) x every n<=rest x 6 kinds x 8 entry "
+    "rule": "7 'kinds' = the 6 prefix kinds through flenp_* plus the varint kind through the lenp_* entry points of the header (called in call syntax, result converted as by "
+            "`ssize_t rc = lenp_...()`), every family below runs over all 7. "
+            "Odometer, simplest first: encoders over every buffer state (offset<=used<=size<=S) x every n<=rest x 6 kinds x 8 entry "
             "points x {chunk sink, octet sink}; the two _n entry points on every buffer state (size<=4/6, offset>0 and empty included) asked "
             "for n beyond every kind's maximum and beyond the content (256, 2^16, 2^31, and every value within size+1 of 2^32, SSIZE_MAX "
             "and SIZE_MAX, i.e. every n for which offset+n wraps): admissible answers are a refusal with nothing emitted followed by a "
@@ -22,18 +26,39 @@ CHECK = {
             "decoders over every destination buffer "
             "state and capacities len-1,len,len+1, lengths 1..1100 and the 16-bit maxima, 32-bit and SSIZE_MAX prefix values (never beyond the "
             "kind's maximum) against real destinations of 1 and 7 octets; accepting decodes of 2^32-3, 2^32-1, 2^32+5, 2^33-3 octets into an "
-            "untouched mapping with a first source read of 1, 2^31, 2^32-11, 2^32-4, 2^32-5, 2^32, 2^33-4 octets; streams of 1..3 frames (<=L octets) under all 2^(L-1) fragmentations by a chunk source (streams <=10/13 octets also by a chunk source that offers a scratch "
+            "untouched mapping with a first source read of 1, 2^31, 2^32-11, 2^32-4, 2^32-5, 2^32, 2^33-4 octets; decode_source_to_sink on frames of 2^31, 2^31+7, 2^32-3, 2^32-1, 2^32+5, 2^33-3 octets from a "
+            "source that offers the untouched mapping as its scratch block (getbuffer extension) into a counting sink, same first reads (octets identified by address and count); streams of 1..3 frames (<=L octets) under all 2^(L-1) fragmentations by a chunk source (streams <=10/13 octets also by a chunk source that offers a scratch "
             "block of 1, 3 or 8 octets through the getbuffer extension, sink decoder), a "
             "130-octet frame (two-octet varint prefix) under all fragmentations with <=2 cuts, and the same streams through an "
-            "octet source.  The quantifier text names no random part; nothing is sampled.  Non-trivial = buffer case where "
+            "octet source; "
+            "enc-sum: chunk lists of 2..4 equal fake-extent chunks whose unread octets add up to 2^31-1, 2^31, 2^31+5, 0x90000000, 2^32-1, 2^32, 2^32+5, 0x180000000 (no single chunk near a boundary), "
+            "chunks_use / chunks_to_sink; "
+            "enc-alias / dec-alias (argument aliasing, see assumptions): memory_to_sink / buffer_to_sink / buffer_to_sink_n into a chunk or octet sink that appends to the very ByteBuffer the payload is "
+            "taken from (0/1 consumed octets in front, unread <= 4/6 and 130, 300, every n, room exact or +1; buffer_to_sink_n also as every composition of the unread octets into a history of slices), "
+            "and the three decoders from a chunk or octet source that reads the unread content of the very ByteBuffer the payload is appended to (1..2 frames of <= 3/5 and 130 octets, room exact, +1, and one short); "
+            "reent-enc / reent-dec (stacked endpoints): the four sink encoders (lengths 1,3,300 / 1,2,3,130,300,65535; chunk sink, chunk sink taking one octet per call, octet sink) and the three decoders "
+            "(source of the same three styles; decode_source_to_sink also with the sink stacked) whose driver, in its call 0, 1 (thorough: ..3) or in each of its first 8 calls, before or after doing its own job, "
+            "calls one of the 11 entry points with one of the 6 kinds on lower endpoints of its own - with a payload/frame of its own (2, 200 / 1, 2, 200, 300 octets) or, for sink drivers and the four sink "
+            "encoders, with exactly the pointer and count it was handed (tunnelling) - and sources that obtain what they hand out by decoding (3 decoders x 6 kinds) a lower stream that carries the outer stream "
+            "in frames of 1, 2 or 5 octets; both the outer and every lower call are judged by the oracle of their entry point. "
+            "The quantifier text names no random part; nothing is sampled.  Non-trivial = buffer case where "
             "offset>0 or free space != unread or n<rest, chunk list with >1 chunk or an inactive chunk, stream with >=1 cut or "
-            ">=2 frames, sink-script case in which a deviating answer was really delivered, every memory/decoder/maxima/refusal case.",
+            ">=2 frames, sink-script case in which a deviating answer was really delivered, stacked-endpoint case in which at least one lower call was really made from inside a driver, "
+            "every memory/decoder/maxima/refusal/aliasing case.",
     "assumptions": [
         "64-bit little-endian host (size_t and ssize_t 64 bit)",
         "payload octets are position dependent pat(i)=1+i%199; payload *values* are not enumerated (framing does not look at them)",
         "sinks answer within the driver contract of endpoints/core.c (a count <= asked, 0, -EINTR, -EAGAIN; hard sink errors are not "
         "scripted: the statement does not say what an encoder does with them); sources fragment by positive short reads only "
         "(0 / EINTR / EAGAIN answers of a source belong to C17; the varint prefix is read octet-wise through the at-most API)",
+        "re-entrancy: the statement quantifies over sinks and sources without restriction; a driver that frames / de-frames on a lower endpoint through the same library is such a sink / source "
+        "(layered framing), so both the outer call and the call made from inside the driver are owed their frame / payload; the lower endpoints are objects of the driver, never the outer call's own arguments",
+        "aliasing between the arguments of one call, decided as follows. Admitted (the designated octets are fixed by the arguments when the call is made and nobody writes them during the call): "
+        "a sink that appends behind the fill mark of the ByteBuffer the payload is taken from (memory_to_sink, buffer_to_sink, buffer_to_sink_n: the frame is the buffer's content behind the old fill mark, "
+        "the sink's bookkeeping in the descriptor survives, _n advances offset by n), and a source that reads the unread content of the ByteBuffer the payload is appended to (all three decoders; "
+        "decode_source_to_sink with source and sink on one ByteBuffer); these drivers are harness code using the descriptor fields directly. Not admitted, not generated: a sink appending to a chunk of "
+        "the chunk list being framed (the total is a moving target; no implementation can snapshot it without extra storage), a prefix object whose own payload view is passed as the buffer argument, "
+        "a decode destination overlapping the unread stream",
         "_n entry points: the statement has no sentence for n > unread content; such n are only generated where n is also beyond "
         "the kind's maximum, and two answers are accepted: (a) a refusal (any negative code) with nothing emitted, or (b) a frame "
         "of exactly the `rest` unread octets (prefix = rest, payload = those octets, total reported, buffer advanced by rest) when "
@@ -56,7 +81,8 @@ CHECK = {
         "decoders: prefix values beyond the kind's maximum (varint: > SSIZE_MAX) are outside the statement and not generated; "
         "destinations are always real exact-size blocks (no claimed capacities), so a write inside the destination is never an alarm",
         "decode_source_to_sink: only a non-negative return is demanded on success (the sink content decides); "
-        "accepting decodes at the 32-bit maxima run for memory_from_source / buffer_from_source only (the sink decoder moves octet by octet)",
+        "its accepting decodes at the 32-bit maxima (dec-huge-sink) rest on the decoder moving the payload through the block the source offers: a probe with a 64 MiB frame decides; "
+        "if the source is asked to fill other memory the family is not run / the case not judged (cap, exhaustive=False, exit 0), never a violation",
         "ASan red zones around exact-size heap blocks observe writes past a destination",
     ],
     "harnesses": [{
@@ -68,8 +94,10 @@ CHECK = {
                                      "decmax-enomem", "stream-inorder", "stream2-inorder", "stream-octet",
                                      "refuse-n", "refuse-n-offset", "refuse-n-then-slice",
                                      "encbeh-zero-return", "encbeh-interruption", "encbeh-partial", "encbeh-mixed",
-                                     "encmax-partial-sink", "stream-getbuffer"]},
-        # dechuge-accept is not required: a decoder that does not deliver in place makes the whole family end as
+                                     "encmax-partial-sink", "stream-getbuffer",
+                                     "encsum-accept", "encsum-refuse", "alias-enc", "alias-enc-slices", "alias-dec", "alias-dec-enomem",
+                                     "reent-enc", "reent-enc-tunnel", "reent-dec", "reent-dec-tunnel", "reent-dec-sink"]},
+        # dechuge-accept / dechuge-sink-accept are not required: a decoder that does not deliver in place makes the whole family end as
         # dechuge-not-run / dechuge-not-judged (with a cap: exhaustive=False), which is not a vacuity failure
     }],
 }
